@@ -1,4 +1,4 @@
-(* The static part of C11 for the redis, amqp and kafka extensions: the access programs the
+(* The static part of C11 for the redis, amqp, kafka, http and dns extensions: the access programs the
    translator produced from Summarize / Represent (gen/StagesSrc.v) are accepted by the shape
    checker for every alternative of the shapes derived from the emitted Go values
    (gen/StageShapes.v); by AccessProofs.check_alts_sound they then run without a panic on every
@@ -20,6 +20,15 @@ Proof. vm_compute. reflexivity. Qed.
 Lemma static_kafka_represent : check_alts prog_kafka_represent alts_kafka = true.
 Proof. vm_compute. reflexivity. Qed.
 
+Lemma static_http_summarize : check_alts prog_http_summarize alts_http = true.
+Proof. vm_compute. reflexivity. Qed.
+Lemma static_http_represent : check_alts prog_http_represent alts_http = true.
+Proof. vm_compute. reflexivity. Qed.
+Lemma static_dns_summarize : check_alts prog_dns_summarize alts_dns = true.
+Proof. vm_compute. reflexivity. Qed.
+Lemma static_dns_represent : check_alts prog_dns_represent alts_dns = true.
+Proof. vm_compute. reflexivity. Qed.
+
 Definition no_panic (p : stmt) (alts : list alt) : Prop :=
   forall req resp, existsb (fun a => alt_conf a req resp) alts = true -> stage_run p req resp = Ok tt.
 
@@ -39,9 +48,18 @@ Proof. exact (no_panic_of_static _ _ static_kafka_summarize). Qed.
 Lemma no_panic_kafka_represent : no_panic prog_kafka_represent alts_kafka.
 Proof. exact (no_panic_of_static _ _ static_kafka_represent). Qed.
 
+Lemma no_panic_http_summarize : no_panic prog_http_summarize alts_http.
+Proof. exact (no_panic_of_static _ _ static_http_summarize). Qed.
+Lemma no_panic_http_represent : no_panic prog_http_represent alts_http.
+Proof. exact (no_panic_of_static _ _ static_http_represent). Qed.
+Lemma no_panic_dns_summarize : no_panic prog_dns_summarize alts_dns.
+Proof. exact (no_panic_of_static _ _ static_dns_summarize). Qed.
+Lemma no_panic_dns_represent : no_panic prog_dns_represent alts_dns.
+Proof. exact (no_panic_of_static _ _ static_dns_represent). Qed.
+
 (* nothing was refused by the translator, nothing went wrong while deriving the shapes, and every
    extension has at least one alternative (the statements above are not vacuous) *)
 Lemma static_complete : untranslated = [].
 Proof. reflexivity. Qed.
-Lemma shapes_derived : shape_problems = [] /\ alts_redis <> [] /\ alts_amqp <> [] /\ alts_kafka <> [].
+Lemma shapes_derived : shape_problems = [] /\ alts_redis <> [] /\ alts_amqp <> [] /\ alts_kafka <> [] /\ alts_http <> [] /\ alts_dns <> [].
 Proof. repeat split; try reflexivity; discriminate. Qed.
